@@ -69,6 +69,17 @@ fn supervise(args: &[String]) -> ! {
         }
         std::process::exit(1)
     }
+    // C11 states that every index / slice selection terminates: an input that takes a fresh process down on its
+    // own is a selection that does not (the watchdog reports a hang under C11 in the same way)
+    if prop == "C11" && reproduced && [4, 6, 7, 11].contains(&sig) {
+        if let Some((c, p)) = &shown {
+            println!("VIOLATION property=C11 replay={}", p);
+            let t = c.to_string();
+            eprintln!("  the process is killed by signal {} (stack overflow or abort) inside a library call; the saved input does it again on its own in a fresh process", sig);
+            eprintln!("  case: {}", if t.len() > 600 { format!("{}...", &t[..600]) } else { t });
+            std::process::exit(1)
+        }
+    }
     if let Some((c, p)) = &shown {
         let t = c.to_string();
         eprintln!("  input in flight{}: {}  (saved as a C08 replay: {})", if reproduced { " (kills a fresh process too)" } else { "" }, if t.len() > 600 { format!("{}...", &t[..600]) } else { t }, p);
